@@ -135,9 +135,9 @@ CHECKS = {
         technique="Coq proof (frame invariant over all command sequences; general all-exits theorems by simulation to an abstract own-object state; product state with a MARK-rule counter for the owner match; pf anchor-state model) + trace/state correspondence with fault injection at every command index"),
 
     "C17": dict(
-        text=("21 theorems (Props/C17.v): for all ip < 2^32 and w <= 32 the computed network has host bits cleared and network bits kept (and this is what "
+        text=("24 theorems (Props/C17.v): for all ip < 2^32 and w <= 32 the computed network has host bits cleared and network bits kept (and this is what "
               "the Python integer arithmetic of _list_routes computes); _maskbits on every contiguous netmask; abbreviated BSD notation; every well-formed "
-              "iproute2 / netstat (Linux and BSD) line yields the canonical network; default/127.x/0.x filtered; for EVERY tool output, arbitrary bytes "
+              "iproute2 / netstat (Linux and BSD) / Windows `route PRINT -4` On-link line yields the canonical network (c17_windows_line, c17_windows_line_gen, c17_windows_skipped); default/127.x/0.x filtered; for EVERY tool output, arbitrary bytes "
               "included, each line yields a canonical route or is skipped (as-found code refuted: F7, fixed); delivery: for advertisements <= 65535 bytes "
               "the client adds exactly the advertised networks and then starts the firewall, larger ones hit Mux.send's assert (known finding F6). "
               "Tied to /repo by running the real server route functions with a fake Popen on generated routing tables, server.main up to the ROUTES frame and client._main's onroutes."),
